@@ -1,5 +1,344 @@
-(** Property C06 — statements only. (placeholder until the invariant proofs land) *)
-From WacV Require Import Graph.
-Theorem empty_graph_has_no_nodes : node_ids empty_graph = nil.
-Proof. reflexivity. Qed.
-Print Assumptions empty_graph_has_no_nodes.
+(** Property C06 — the graph API stays consistent over every operation history.
+    Statements only; every proof is [exact <lemma>]. The model is [model/Graph.v] (it mirrors
+    [crates/wac-graph/src/graph.rs] and is compared with it step by step by [./check C06]); the
+    invariant [Inv] is defined in [proofs/GraphInv.v]:
+
+      - free slots are dead, in range and listed once;
+      - every edge joins two live nodes; an argument edge targets an instantiation, an instantiation
+        has only argument edges coming in;
+      - the satisfied set of an instantiation is duplicate free and contains index [i] exactly when
+        exactly one incoming argument edge carries [i], otherwise there is none ([count_arg]);
+      - [exports] has distinct names, points to live nodes and contains the export name of every node;
+      - [imports] has distinct names and lists exactly the live import nodes under their names;
+      - [defined] lists live definition nodes and every definition node is listed;
+      - the package identifier of a node is live, an instantiation has one and its package description
+        is available; free package slots are empty and listed once. *)
+From Coq Require Import List Arith Bool NArith.
+From WacV Require Import Graph GraphInv GraphPrims GraphSteps GraphRemove GraphUnreg GraphTheorems GraphLive GraphAcyclic GraphRank
+  GraphAlias GraphExact GraphFrame GraphQueries.
+Import ListNotations.
+
+(** 1. The invariant holds initially, is preserved by every operation whatever its outcome, hence holds
+       after every history. *)
+Theorem inv_empty : forall u, Inv u empty_graph.
+Proof. exact inv_empty. Qed.
+Print Assumptions inv_empty.
+
+Theorem step_inv : forall u s o, Inv u s -> Inv u (fst (step u s o)).
+Proof. exact step_inv. Qed.
+Print Assumptions step_inv.
+
+Theorem reach_inv : forall u ops, Inv u (run u ops).
+Proof. exact reach_inv. Qed.
+Print Assumptions reach_inv.
+
+(** 2. In a consistent state no operation reaches one of the bookkeeping panics (the
+       [assert!]/[unwrap]/[panic!] sites that the maps, edges and satisfied sets agree). *)
+Theorem step_no_bookkeeping_panic : forall u s o,
+  Inv u s ->
+  snd (step u s o) <> OPanic PSatInsert /\ snd (step u s o) <> OPanic PSatRemove /\
+  snd (step u s o) <> OPanic PNotInstantiation /\ snd (step u s o) <> OPanic PUnexpectedEdge /\
+  snd (step u s o) <> OPanic PDeadNodeInMap /\ snd (step u s o) <> OPanic PExportMissing /\
+  snd (step u s o) <> OPanic PImportMissing /\ snd (step u s o) <> OPanic PDefinedMissing.
+Proof. exact step_no_bookkeeping_panic. Qed.
+Print Assumptions step_no_bookkeeping_panic.
+
+Theorem step_panics_classified : forall u s o p,
+  Inv u s -> snd (step u s o) = OPanic p ->
+  p = PInvalidNodeId \/ p = PInvalidPackageId \/ p = PBadUniverse \/ p = POutOfFuel.
+Proof. exact step_panics_classified. Qed.
+Print Assumptions step_panics_classified.
+
+(** 3. Removal leaves no trace. (That the arguments the node satisfied are unsatisfied again is the
+       [inv_sat_exact] clause of [Inv u s'], which holds by [step_inv].) *)
+Theorem remove_no_trace : forall u s n s',
+  Inv u s -> remove_node s n = (s', OUnit) ->
+  live s' n = false /\ (forall e, In e (edges s') -> esrc e <> n /\ etgt e <> n) /\
+  (forall nm, ~ In (nm, n) (exports s')) /\ (forall nm, ~ In (nm, n) (imports s')) /\
+  (forall t, ~ In (t, n) (defined s')).
+Proof. exact remove_no_trace. Qed.
+Print Assumptions remove_no_trace.
+
+Theorem remove_only_removes : forall u s n s',
+  Inv u s -> remove_node s n = (s', OUnit) ->
+  (forall m, live s' m = true -> live s m = true) /\ (forall e, In e (edges s') -> In e (edges s)).
+Proof. exact remove_only_removes. Qed.
+Print Assumptions remove_only_removes.
+
+Theorem unregister_no_trace : forall u s id s',
+  Inv u s -> unregister s id = (s', OUnit) ->
+  get_pkg s' id = None /\
+  forall n nd, get_node s n = Some nd -> npkg nd = Some id ->
+    live s' n = false /\ (forall e, In e (edges s') -> esrc e <> n /\ etgt e <> n) /\
+    (forall nm, ~ In (nm, n) (exports s')) /\ (forall nm, ~ In (nm, n) (imports s')) /\
+    (forall t, ~ In (t, n) (defined s')).
+Proof. exact unregister_no_trace. Qed.
+Print Assumptions unregister_no_trace.
+
+(** 4. No call with live identifiers panics. [LiveOp u s o]: every node identifier in [o] is an occupied
+       slot, every package identifier is current (and, for [Instantiate], its description is in the
+       universe), universe indexes are in range. [Acyclic s]: some rank function increases along every
+       alias and dependency edge; it is what bounds the recursion of [remove_node] (the model's fuel
+       [S (length (nodes s))] then suffices, and the node is still there after its dependants went). *)
+Theorem step_no_panic_live_acyclic : forall u s o,
+  Inv u s -> Acyclic s -> LiveOp u s o -> forall p, snd (step u s o) <> OPanic p.
+Proof. exact step_no_panic_live_acyclic. Qed.
+Print Assumptions step_no_panic_live_acyclic.
+
+(** Acyclicity is itself a fact about every reachable state, as soon as the type table of the universe
+    is well founded: [UniverseWF u] says that a definable type refers only to definable types of smaller
+    index or to itself (true of every [Types] arena, which is built bottom-up). *)
+Theorem reach_acyclic : forall u ops, UniverseWF u -> Acyclic (run u ops).
+Proof. exact reach_acyclic. Qed.
+Print Assumptions reach_acyclic.
+
+Theorem step_no_panic_live : forall u ops o,
+  UniverseWF u -> LiveOp u (run u ops) o -> forall p, snd (step u (run u ops) o) <> OPanic p.
+Proof. exact step_no_panic_live. Qed.
+Print Assumptions step_no_panic_live.
+
+(** 5. Documented errors: an error outcome implies the stated precondition (and, for the name clashes,
+       conversely). *)
+Theorem documented_errors_export : forall u s n e x,
+  snd (step u s (Export n e)) = OErr x ->
+  (exists m, x = ExportAlreadyExists m /\ alist_get N.eqb (exports s) e = Some m) \/
+  (x = InvalidExportName /\ alist_get N.eqb (exports s) e = None /\ u_export_name_ok u e = false).
+Proof. exact export_errors. Qed.
+Print Assumptions documented_errors_export.
+
+Theorem export_exists_iff : forall u s n e m,
+  snd (step u s (Export n e)) = OErr (ExportAlreadyExists m) <-> alist_get N.eqb (exports s) e = Some m.
+Proof. exact export_exists_iff. Qed.
+Print Assumptions export_exists_iff.
+
+Theorem documented_errors_import : forall u s nm k x,
+  snd (step u s (Import nm k)) = OErr x ->
+  (exists n, x = ImportAlreadyExists n /\ alist_get N.eqb (imports s) nm = Some n) \/
+  (x = InvalidImportName /\ alist_get N.eqb (imports s) nm = None /\ u_import_name_ok u nm = false).
+Proof. exact import_errors. Qed.
+Print Assumptions documented_errors_import.
+
+Theorem import_exists_node : forall u s nm k n,
+  Inv u s -> snd (step u s (Import nm k)) = OErr (ImportAlreadyExists n) ->
+  exists nd, get_node s n = Some nd /\ nk nd = NImport nm.
+Proof. exact import_exists_node. Qed.
+Print Assumptions import_exists_node.
+
+Theorem documented_errors_define_type : forall u s nm t x,
+  snd (step u s (DefineType nm t)) = OErr x ->
+  exists td, nth_error (u_tys u) t = Some td /\
+  ((x = TypeAlreadyDefined /\ exists n, In (t, n) (defined s)) \/
+   (x = CannotDefineResource /\ td_res td = true) \/
+   (x = ExportConflict /\ In nm (map fst (exports s))) \/
+   (x = InvalidExternName /\ u_import_name_ok u nm = false)).
+Proof. exact define_type_errors. Qed.
+Print Assumptions documented_errors_define_type.
+
+Theorem documented_errors_unexport : forall u s n x,
+  snd (step u s (Unexport n)) = OErr x ->
+  x = MustExportDefinition /\ exists nd, get_node s n = Some nd /\ nk nd = NDef.
+Proof. intros u. exact unexport_errors. Qed.
+Print Assumptions documented_errors_unexport.
+
+Theorem documented_errors_alias : forall u s n e x,
+  snd (step u s (Alias n e)) = OErr x ->
+  exists nd, get_node s n = Some nd /\
+  ((x = NodeIsNotAnInstance /\ u_inst_exports u (nitem nd) = None) \/
+   (x = InstanceMissingExport /\ exists ex, u_inst_exports u (nitem nd) = Some ex /\ get_full ex e 0 = None)).
+Proof. exact alias_errors. Qed.
+Print Assumptions documented_errors_alias.
+
+Theorem documented_errors_set_arg : forall u s inst a arg x,
+  snd (step u s (SetArg inst a arg)) = OErr x ->
+  exists nd, get_node s inst = Some nd /\
+  ((x = NodeIsNotAnInstantiation /\ forall sat, nk nd <> NInst sat) \/
+   exists imps, inst_imports u s nd = Some imps /\
+     ((x = InvalidArgumentName /\ get_full imps a 0 = None) \/
+      exists index expected, get_full imps a 0 = Some (index, expected) /\
+        ((x = ArgumentAlreadyPassed /\
+          exists e, In e (edges s) /\ etgt e = inst /\ ek e = EArg index /\ esrc e <> arg) \/
+         (x = ArgumentTypeMismatch /\ exists an, get_node s arg = Some an /\ u_sub u (nitem an) expected = false)))).
+Proof. exact set_arg_errors. Qed.
+Print Assumptions documented_errors_set_arg.
+
+Theorem import_exists_iff : forall u s nm k n,
+  k < length (u_lkinds u) ->
+  (snd (step u s (Import nm k)) = OErr (ImportAlreadyExists n) <-> alist_get N.eqb (imports s) nm = Some n).
+Proof. exact import_exists_iff. Qed.
+Print Assumptions import_exists_iff.
+
+Theorem unexport_def_iff : forall u s n,
+  snd (step u s (Unexport n)) = OErr MustExportDefinition <-> exists nd, get_node s n = Some nd /\ nk nd = NDef.
+Proof. intros u. exact unexport_def_iff. Qed.
+Print Assumptions unexport_def_iff.
+
+Theorem define_type_defined_iff : forall u s nm t,
+  t < length (u_tys u) ->
+  (snd (step u s (DefineType nm t)) = OErr TypeAlreadyDefined <-> exists n, In (t, n) (defined s)).
+Proof. exact define_type_defined_iff. Qed.
+Print Assumptions define_type_defined_iff.
+
+Theorem infallible_ops : forall u s o x,
+  snd (step u s o) = OErr x ->
+  match o with
+  | Unregister _ | Instantiate _ | SetName _ _ | RemoveNode _ => False
+  | _ => True
+  end.
+Proof. exact infallible_ops. Qed.
+Print Assumptions infallible_ops.
+
+(** 6. Alias nodes ([AliasInv], [proofs/GraphAlias.v]): every alias edge runs from a live node whose
+       kind has instance exports to a live alias node of the same package, its index selects an export
+       whose kind is the one recorded in the alias node; every alias node has such an edge. It holds
+       after every history, so the alias-source query answers for exactly the alias nodes. *)
+Theorem step_alias_inv : forall u s o, Inv u s -> AliasInv u s -> AliasInv u (fst (step u s o)).
+Proof. exact step_alias_inv. Qed.
+Print Assumptions step_alias_inv.
+
+Theorem reach_alias_inv : forall u ops, AliasInv u (run u ops).
+Proof. exact reach_alias_inv. Qed.
+Print Assumptions reach_alias_inv.
+
+Theorem alias_source_reflects : forall u s n,
+  Inv u s -> AliasInv u s ->
+  match get_node s n with
+  | Some nd =>
+      match nk nd with
+      | NAlias => exists src i nm, get_alias_source u s n = Some (src, nm) /\ live s src = true /\
+                                   In {| esrc := src; etgt := n; ek := EAlias i |} (edges s)
+      | _ => get_alias_source u s n = None
+      end
+  | None => get_alias_source u s n = None
+  end.
+Proof. exact alias_source_reflects. Qed.
+Print Assumptions alias_source_reflects.
+
+(** 7. Queries: the node list is the set of live slots; the satisfied set of an instantiation is the set
+       of indexes on its incoming argument edges; the export map and the export names of the nodes agree;
+       arguments and imports are listed from the surviving edges and nodes. *)
+Theorem node_ids_live : forall s n, In n (node_ids s) <-> live s n = true.
+Proof. exact node_ids_live. Qed.
+Print Assumptions node_ids_live.
+
+Theorem sat_iff_edge : forall u s n nd sat,
+  Inv u s -> get_node s n = Some nd -> nk nd = NInst sat ->
+  forall i, In i sat <-> exists e, In e (edges s) /\ etgt e = n /\ ek e = EArg i.
+Proof. exact sat_iff_edge. Qed.
+Print Assumptions sat_iff_edge.
+
+Theorem exports_reflect : forall u s,
+  Inv u s ->
+  (forall nm n, alist_get N.eqb (exports s) nm = Some n -> live s n = true) /\
+  (forall n nd nm, get_node s n = Some nd -> nexport nd = Some nm -> alist_get N.eqb (exports s) nm = Some n).
+Proof. exact exports_reflect. Qed.
+Print Assumptions exports_reflect.
+
+(** the arguments of [n]: one per incoming argument edge, the source is live and the index satisfied *)
+Theorem get_args_spec : forall u s n nm src,
+  Inv u s ->
+  (In (nm, src) (get_args u s n) <->
+   exists nd sat imps e i k,
+     get_node s n = Some nd /\ nk nd = NInst sat /\ inst_imports u s nd = Some imps /\
+     In e (edges s) /\ etgt e = n /\ esrc e = src /\ ek e = EArg i /\ nth_error imps i = Some (nm, k) /\
+     In i sat /\ live s src = true).
+Proof. exact get_args_spec. Qed.
+Print Assumptions get_args_spec.
+
+(** [imports()]: the explicit imports are the import nodes; an argument of an instantiation is listed as
+    an implicit import exactly when no argument edge supplies it *)
+Theorem list_imports_explicit : forall u s nm k n,
+  In (nm, k, Some n) (list_imports u s) <-> exists nd, get_node s n = Some nd /\ nk nd = NImport nm /\ nitem nd = k.
+Proof. exact list_imports_explicit. Qed.
+Print Assumptions list_imports_explicit.
+
+Theorem list_imports_implicit : forall u s nm k,
+  Inv u s ->
+  (In (nm, k, None) (list_imports u s) <->
+   exists n nd sat imps i,
+     get_node s n = Some nd /\ nk nd = NInst sat /\ inst_imports u s nd = Some imps /\
+     nth_error imps i = Some (nm, k) /\ ~ exists e, In e (edges s) /\ etgt e = n /\ ek e = EArg i).
+Proof. exact list_imports_implicit. Qed.
+Print Assumptions list_imports_implicit.
+
+(** 8. Exactly the node and its alias/dependency descendants disappear ([reach s n m]: a path of alias
+       and dependency edges of [s] from [n] to [m]), and nothing else changes ([Frame s s'],
+       [proofs/GraphFrame.v]: surviving nodes keep package, kind, name and export name, an instantiation
+       may only lose satisfied indexes; [edges], [exports], [imports], [defined] keep exactly the entries
+       whose nodes survive; the package table is untouched). Likewise for [unregister]. *)
+Theorem remove_exact : forall u s n s',
+  Inv u s -> remove_node s n = (s', OUnit) ->
+  forall m, live s' m = true <-> (live s m = true /\ ~ reach s n m).
+Proof. exact remove_exact. Qed.
+Print Assumptions remove_exact.
+
+Theorem remove_frame : forall u s n s', Inv u s -> remove_node s n = (s', OUnit) -> Frame s s'.
+Proof. exact remove_frame. Qed.
+Print Assumptions remove_frame.
+
+Theorem unregister_frame : forall s id s',
+  unregister s id = (s', OUnit) ->
+  (forall m, live s' m = true <-> live s m = true /\ node_pkg_is s id m = false) /\
+  (forall m, live s' m = true -> orel nrel5 (get_node s m) (get_node s' m)) /\
+  (forall e, In e (edges s') <-> In e (edges s) /\ node_pkg_is s id (esrc e) = false /\ node_pkg_is s id (etgt e) = false) /\
+  (forall x, In x (exports s') <-> In x (exports s) /\ node_pkg_is s id (snd x) = false) /\
+  (forall x, In x (imports s') <-> In x (imports s) /\ node_pkg_is s id (snd x) = false) /\
+  (forall x, In x (defined s') <-> In x (defined s) /\ node_pkg_is s id (snd x) = false) /\
+  (forall id', fst id' <> fst id -> get_pkg s' id' = get_pkg s id').
+Proof. exact unregister_frame. Qed.
+Print Assumptions unregister_frame.
+
+(** Non-vacuity: a concrete universe (literal tables) and a history that exercises slot reuse, the
+    "set argument, remove its source, set it again" interleaving, a base type defined after its
+    dependant, unregistration, and the documented panic on a dead package identifier. *)
+Definition ex_u : universe := {|
+  u_inst_exports := fun k => if N.eqb k 10 then Some [(1%N, 20%N)] else if N.eqb k 11 then Some [] else None;
+  u_pkgs := [ {| pd_inst := 10%N; pd_imports := [] |}; {| pd_inst := 11%N; pd_imports := [(2%N, 20%N)] |} ];
+  u_tys := [ {| td_res := false; td_kind := 30%N; td_deps := [] |};
+             {| td_res := false; td_kind := 31%N; td_deps := [0; 1] |} ];
+  u_lkinds := [20%N];
+  u_sub := N.eqb;
+  u_import_name_ok := fun _ => true;
+  u_export_name_ok := fun _ => true |}.
+
+Fixpoint trace (u : universe) (s : gstate) (ops : list op) : list outcome :=
+  match ops with
+  | [] => []
+  | o :: r => snd (step u s o) :: trace u (fst (step u s o)) r
+  end.
+
+Definition ex_ops : list op :=
+  [Register 0; Register 1; Instantiate (0,0); Instantiate (1,0); Alias 0 1%N; SetArg 1 2%N 2; Export 2 5%N;
+   DefineType 6%N 1; DefineType 7%N 0; RemoveNode 0; Instantiate (0,0); Alias 0 1%N; SetArg 1 2%N 2;
+   RemoveNode 4; Unregister (1,0); Instantiate (1,0)].
+
+Definition sat_of (s : gstate) (n : nat) : option (list nat) :=
+  match get_node s n with Some nd => match nk nd with NInst sat => Some sat | _ => None end | None => None end.
+
+Example history_nonvacuous :
+  trace ex_u empty_graph ex_ops =
+    [OPkg (0, 0); OPkg (1, 0); ONode 0; ONode 1; ONode 2; OUnit; OUnit; ONode 3; ONode 4; OUnit;
+     ONode 0; ONode 2; OUnit; OUnit; OUnit; OPanic PInvalidPackageId] /\
+  (* before / after [RemoveNode 0]: the argument of node 1 is satisfied, then unsatisfied again *)
+  sat_of (run ex_u (firstn 9 ex_ops)) 1 = Some [0] /\
+  edges (run ex_u (firstn 9 ex_ops)) =
+    [{| esrc := 4; etgt := 3; ek := EDep |}; {| esrc := 2; etgt := 1; ek := EArg 0 |};
+     {| esrc := 0; etgt := 2; ek := EAlias 0 |}] /\
+  sat_of (run ex_u (firstn 10 ex_ops)) 1 = Some [] /\
+  exports (run ex_u (firstn 10 ex_ops)) = [(7%N, 4); (6%N, 3)] /\
+  free_nodes (run ex_u (firstn 10 ex_ops)) = [0; 2] /\
+  (* the end: one instantiation and its alias survive *)
+  node_ids (run ex_u ex_ops) = [0; 2] /\ defined (run ex_u ex_ops) = [] /\
+  get_pkg (run ex_u ex_ops) (1, 0) = None.
+Proof. vm_compute. repeat split. Qed.
+
+Example universe_nonvacuous : UniverseWF ex_u.
+Proof.
+  intros t td d H Hin _. destruct t as [|[|t]]; cbn in H.
+  - injection H as <-. destruct Hin.
+  - injection H as <-. cbn in Hin. destruct Hin as [<-|[<-|[]]]; auto.
+  - destruct t; discriminate.
+Qed.
+
+(** not yet proved (see DESIGN.md C06): [still_encodes] (the link to C02/C14 - the encoder is not
+    modelled here), and the converse direction of the remaining error preconditions (proved: the two
+    name clashes, [TypeAlreadyDefined], [MustExportDefinition]). *)
